@@ -110,6 +110,40 @@ def other_eval(case, f):
         why = None if back == recs else f'vbs_bytes_to_list(blocked=True) returned {len(back or [])} records ({end}), the file holds {len(recs)}'
         return {'obs': 'ok ' + ','.join(common.sig(r) for r in (back or [])) + ' ' + end, 'violation': why,
                 'nontrivial': len(f) > 2028, 'tags': ['vbslist']}
+    if case['k'] == 'vbsplain':
+        # the EQUIVALENT UNBLOCKED stream of the same records, read the way an unblocked stream is read — no `blocked`
+        # argument at all (the documented default), or blocked=False — whatever its bytes 1012-1013 hold
+        import struct
+        recs = [bytes([case['fill']]) * n for n in case['lens']]
+        why = None
+        obs = []
+        for how in ('reader-default', 'reader-false', 'list-default', 'list-false'):
+            try:
+                if how == 'reader-default':
+                    back = list(mciipm.VbsReader(io.BytesIO(f)))
+                elif how == 'reader-false':
+                    back = list(mciipm.VbsReader(io.BytesIO(f), blocked=False))
+                elif how == 'list-default':
+                    back = mciipm.vbs_bytes_to_list(f)
+                else:
+                    back = mciipm.vbs_bytes_to_list(f, blocked=False)
+                end = 'eof'
+            except mciipm.MciIpmDataError:
+                back, end = None, 'err'
+            except Exception as ex:  # noqa
+                back, end = None, 'escape:' + type(ex).__name__
+            if back != recs and why is None:
+                why = (f'the unblocked stream of {len(recs)} records read with {how} gave {len(back or [])} records ({end}); '
+                       f'its bytes 1012-1013 are {f[1012:1014].hex()}')
+            if how == 'reader-default':
+                obs = 'ok ' + ','.join(common.sig(r) for r in (back or [])) + ' ' + end
+        # and the blocked form of the same stream gives the same records
+        try:
+            if mciipm.vbs_bytes_to_list(ref_blockify(f), blocked=True) != recs and why is None:
+                why = 'the blocked form of the stream does not give the same records as the unblocked stream'
+        except Exception as ex:  # noqa
+            why = why or f'reading the blocked form failed: {type(ex).__name__}'
+        return {'obs': obs, 'violation': why, 'nontrivial': len(f) > 1014, 'tags': ['vbsplain']}
     raise ValueError(case['k'])
 
 
@@ -120,6 +154,8 @@ def vbs_blocked_hex(lens):
 
 
 def model_line(case):
+    if case['k'] == 'vbsplain':
+        return f"vbs.read\t0\t6000\t{case['file']}"
     if case['k'] == 'vbslist':
         return f"vbs.read\t1\t6000\t{case['file']}"
     if case['k'] == 'reads':
@@ -162,6 +198,13 @@ def explore(run, tier):
     for lens in ([5], [1004], [1005], [900, 900], [1000, 1000, 1000], [2500, 17, 3000], [500] * 12, [6000], [1012] * 7,
                  [3, 2020, 3, 1008, 1]):
         cases.append({'k': 'vbslist', 'file': 'hex:' + vbs_blocked_hex(lens), 'lens': lens})
+    # the equivalent UNBLOCKED streams, of records of one byte value (blanks in EBCDIC / ASCII, NUL): such a stream has
+    # x'40' x'40' where a blocked file has its trailers — it is unblocked all the same
+    import struct
+    for fill in (0x40, 0x20, 0x00):
+        for lens in ([2100], [1008, 1008], [1004, 6], [500, 504, 1020, 3000], [1010], [1009], [6000, 6000], [3] * 300):
+            stream = b''.join(struct.pack('>I', n) + bytes([fill]) * n for n in lens) + b'\x00' * 4
+            cases.append({'k': 'vbsplain', 'file': 'hex:' + stream.hex(), 'lens': lens, 'fill': fill})
     # payloads made of ONE byte value (line feed, carriage return, the filler, NUL, 0xFF): whatever stands at the first
     # or last position of a block is data
     for fill in (0x0a, 0x0d, 0x40, 0x00, 0xff, 0x1a):
